@@ -8,7 +8,7 @@
       * scheduler-driven runs (needs the yield-point hook): the model is run on the very same
         schedule and outputs and final state are compared exactly.
     The [k_*] predicates are the finding classes. *)
-From Coq Require Import ZArith List Bool.
+From Coq Require Import String ZArith List Bool.
 From GV Require Export Conc.Ops.
 From GV Require Import Conc.ProofsLock Conc.ProofsRdf Conc.ProofsBuf.
 Import ListNotations.
@@ -61,6 +61,41 @@ Arguments ss_sh {St Op}.
 Arguments ss_out {St Op}.
 Arguments seq_order {St K Op}.
 Arguments seq_outcomes {St K Op}.
+
+(** * generic: the yield site at which every granted step ends *)
+Section Events.
+  Variables (St K Op : Type).
+  Variable code : Op -> list K.
+  Variable exec : K -> St -> regs -> St * regs * ctl out.
+  Variable site : K -> option nat -> string.
+
+  Definition step_event (c : @config St regs Op out) (i : nat) : string :=
+    match nth_error (pool c) i with
+    | None => "none"
+    | Some th =>
+        match t_op th with
+        | None => "idle"
+        | Some (op, pc) =>
+            match nth_error (code op) pc with
+            | None => "stuck"
+            | Some k =>
+                match exec k (sh c) (t_loc th) with
+                | (_, _, Next) => site k None
+                | (_, _, Goto pc') => site k (Some pc')
+                | (_, _, Ret _) => "ret"
+                end
+            end
+        end
+    end%string.
+  Fixpoint run_events (sched : list nat) (c : @config St regs Op out) : list string :=
+    match sched with
+    | [] => []
+    | i :: t => step_event c i :: run_events t (step code exec c i)
+    end.
+End Events.
+Arguments run_events {St K Op}.
+Definition events_eqb (a b : list string) : bool :=
+  Nat.eqb (length a) (length b) && forallb (fun p => String.eqb (fst p) (snd p)) (combine a b).
 
 (** * list comparisons (sets) *)
 Definition subl {A} (eqb : A -> A -> bool) (a b : list A) : bool := forallb (fun x => existsb (eqb x) b) a.
@@ -170,9 +205,23 @@ Definition chk_lpg_created (setup : list gop) (labels : list Z) (outs : list (li
 
 (** scheduler-driven: same schedule through the model *)
 Definition chk_lpg_sched (setup : list gop) (progs : list (list gop)) (sched : list nat) (labels : list Z)
-                         (outs : list (list (gop * out))) (o : lpg_obs) : bool :=
-  let c := grun sched (ginit (gsetup setup) progs) in
-  finished c && outs_eqb gop_eqb (outputs c) outs && lobs_eqb (observe (sh c) labels) o.
+                         (events : list string) (outs : list (list (gop * out))) (o : lpg_obs) : bool :=
+  let c0 := ginit (gsetup setup) progs in
+  let c := grun sched c0 in
+  finished c && events_eqb (run_events gcode gexec gsite sched c0) events &&
+  outs_eqb gop_eqb (outputs c) outs && lobs_eqb (observe (sh c) labels) o.
+(** the property on an observation: cross-checks, unique ids, and outputs + final state equal to
+    those of SOME sequential order of the operations *)
+Definition orc_lpg (setup : list gop) (progs : list (list gop)) (labels : list Z)
+                   (outs : list (list (gop * out))) (o : lpg_obs) : bool :=
+  lobs_consistent o &&
+  nodupb (ids_of_outs (fun op => match op with GCreateNode _ => true | _ => false end) outs) &&
+  nodupb (ids_of_outs (fun op => match op with GCreateEdge _ _ => true | _ => false end) outs) &&
+  chk_lpg_seq setup progs labels outs o.
+Definition show_lpg_sched (setup : list gop) (progs : list (list gop)) (sched : list nat) (labels : list Z) :=
+  let c0 := ginit (gsetup setup) progs in
+  let c := grun sched c0 in
+  (finished c, run_events gcode gexec gsite sched c0, outputs c, observe (sh c) labels).
 
 (** * triple store *)
 Record rdf_obs := mkQObs { qo_prim : list Z; qo_s : list Z; qo_p : list Z; qo_o : list Z }.
@@ -189,9 +238,16 @@ Definition chk_rdf_seq (init : list Z) (progs : list (list qop)) (outs : list (l
   existsb (fun ss => outs_eqb qop_eqb (ss_out ss) outs && qobs_eqb (ss_sh ss) o)
           (seq_outcomes qcode qexec (rdf_of init) progs).
 Definition chk_rdf_sched (init : list Z) (progs : list (list qop)) (sched : list nat)
-                         (outs : list (list (qop * out))) (o : rdf_obs) : bool :=
-  let c := qrun sched (qinit (rdf_of init) progs) in
-  finished c && outs_eqb qop_eqb (outputs c) outs && qobs_eqb (sh c) o.
+                         (events : list string) (outs : list (list (qop * out))) (o : rdf_obs) : bool :=
+  let c0 := qinit (rdf_of init) progs in
+  let c := qrun sched c0 in
+  finished c && events_eqb (run_events qcode qexec qsite sched c0) events &&
+  outs_eqb qop_eqb (outputs c) outs && qobs_eqb (sh c) o.
+Definition orc_rdf (universe init : list Z) (progs : list (list qop)) (outs : list (list (qop * out))) (o : rdf_obs) : bool :=
+  qobs_consistent universe o && chk_rdf_seq init progs outs o.
+Definition show_rdf_sched (init : list Z) (progs : list (list qop)) (sched : list nat) :=
+  let c0 := qinit (rdf_of init) progs in
+  let c := qrun sched c0 in (finished c, run_events qcode qexec qsite sched c0, outputs c, sh c).
 
 (** * transaction manager *)
 Definition mop_eqb (a b : mop) : bool :=
@@ -213,9 +269,17 @@ Definition chk_tm_props (outs : list (list (mop * out))) (epoch next : Z) : bool
 Definition chk_tm_seq (progs : list (list mop)) (outs : list (list (mop * out))) (epoch next : Z) : bool :=
   existsb (fun ss => outs_eqb mop_eqb (ss_out ss) outs && (m_epoch (ss_sh ss) =? epoch) && (m_next (ss_sh ss) =? next))
           (seq_outcomes mcode mexec tm0 progs).
-Definition chk_tm_sched (progs : list (list mop)) (sched : list nat) (outs : list (list (mop * out))) (epoch next : Z) : bool :=
-  let c := mrun sched (minit progs) in
-  finished c && outs_eqb mop_eqb (outputs c) outs && (m_epoch (sh c) =? epoch) && (m_next (sh c) =? next).
+Definition chk_tm_sched (progs : list (list mop)) (sched : list nat) (events : list string)
+                        (outs : list (list (mop * out))) (epoch next : Z) : bool :=
+  let c0 := minit progs in
+  let c := mrun sched c0 in
+  finished c && events_eqb (run_events mcode mexec msite sched c0) events &&
+  outs_eqb mop_eqb (outputs c) outs && (m_epoch (sh c) =? epoch) && (m_next (sh c) =? next).
+Definition orc_tm (progs : list (list mop)) (outs : list (list (mop * out))) (epoch next : Z) : bool :=
+  chk_tm_props outs epoch next && chk_tm_seq progs outs epoch next.
+Definition show_tm_sched (progs : list (list mop)) (sched : list nat) :=
+  let c0 := minit progs in
+  let c := mrun sched c0 in (finished c, run_events mcode mexec msite sched c0, outputs c, m_epoch (sh c), m_next (sh c)).
 
 (** * buffer manager *)
 Definition bop_eqb (a b : bop) : bool :=
@@ -251,11 +315,27 @@ Fixpoint brun_trace (sched : list nat) (c : bcfg) : list Z :=
   | [] => []
   | i :: t => let c' := step bcode bexec c i in b_alloc (sh c') :: brun_trace t c'
   end.
-Definition chk_buf_sched (hard : Z) (progs : list (list bop)) (sched : list nat) (outs : list (list (bop * out)))
-                         (trace : list Z) (regions : list Z) : bool :=
-  let c := brun sched (binit hard progs) in
-  finished c && outs_eqb bop_eqb (outputs c) outs && list_eqb Z.eqb (brun_trace sched (binit hard progs)) trace &&
+Definition chk_buf_sched (hard : Z) (progs : list (list bop)) (sched : list nat) (events : list string)
+                         (outs : list (list (bop * out))) (trace : list Z) (regions : list Z) : bool :=
+  let c0 := binit hard progs in
+  let c := brun sched c0 in
+  finished c && events_eqb (run_events bcode bexec bsite sched c0) events &&
+  outs_eqb bop_eqb (outputs c) outs && list_eqb Z.eqb (brun_trace sched c0) trace &&
   list_eqb Z.eqb (b_regs (sh c)) regions.
+(** the property on an observation: the counter never left [0, hard] at any point of the run, the final
+    counters equal what the threads still hold, and outputs + final counters are those of some
+    sequential order *)
+Definition orc_buf (hard : Z) (progs : list (list bop)) (outs : list (list (bop * out)))
+                   (trace : list Z) (regions : list Z) : bool :=
+  forallb (fun a => (0 <=? a) && (a <=? hard)) trace &&
+  let held := flat_map held_after outs in
+  (last trace 0 =? sum_snd held) &&
+  list_eqb Z.eqb regions (map (fun rg => region_sum rg held) [0; 1; 2; 3]%nat) &&
+  chk_buf_seq hard progs outs (last trace 0) regions.
+Definition show_buf_sched (hard : Z) (progs : list (list bop)) (sched : list nat) :=
+  let c0 := binit hard progs in
+  let c := brun sched c0 in
+  (finished c, run_events bcode bexec bsite sched c0, outputs c, brun_trace sched c0, b_regs (sh c)).
 
 (** * write-ahead log *)
 Fixpoint is_subseq (a l : list Z) : bool :=
@@ -268,12 +348,22 @@ Fixpoint is_subseq (a l : list Z) : bool :=
 Definition chk_wal (progs : list (list wop)) (log : list Z) : bool :=
   Nat.eqb (length log) (length (concat progs)) &&
   forallb (fun p => is_subseq (map (fun op => match op with WLog r => r end) p) log) progs.
-Definition chk_wal_sched (progs : list (list wop)) (sched : list nat) (log : list Z) : bool :=
-  let c := wrun sched (winit progs) in finished c && list_eqb Z.eqb (rev (w_log (sh c))) log.
+Definition chk_wal_sched (progs : list (list wop)) (sched : list nat) (events : list string) (log : list Z) : bool :=
+  let c0 := winit progs in
+  let c := wrun sched c0 in
+  finished c && events_eqb (run_events wcode wexec wsite sched c0) events && list_eqb Z.eqb (rev (w_log (sh c))) log.
+Definition show_wal_sched (progs : list (list wop)) (sched : list nat) :=
+  let c0 := winit progs in
+  let c := wrun sched c0 in (finished c, run_events wcode wexec wsite sched c0, rev (w_log (sh c))).
 
 (** * write-ahead log with rotation after every record *)
-Definition chk_walr_sched (progs : list (list rop)) (sched : list nat) (log : list Z) : bool :=
-  let c := rrun sched (rinit progs) in finished c && list_eqb Z.eqb (recovered (sh c)) log.
+Definition chk_walr_sched (progs : list (list rop)) (sched : list nat) (events : list string) (log : list Z) : bool :=
+  let c0 := rinit progs in
+  let c := rrun sched c0 in
+  finished c && events_eqb (run_events rcode rexec rsite sched c0) events && list_eqb Z.eqb (recovered (sh c)) log.
+Definition show_walr_sched (progs : list (list rop)) (sched : list nat) :=
+  let c0 := rinit progs in
+  let c := rrun sched c0 in (finished c, run_events rcode rexec rsite sched c0, recovered (sh c)).
 (** the property on an observation: every record present once, per-thread order preserved *)
 Definition walr_ok (progs : list (list rop)) (log : list Z) : bool :=
   Nat.eqb (length log) (length (concat progs)) &&
@@ -288,8 +378,14 @@ Definition pobs_eqb (p : pst) (o : prop_obs) : bool :=
 Definition pop_eqb (a b : pop) : bool := match a, b with PSetProp n v, PSetProp m w => (n =? m) && (v =? w) end.
 Definition chk_prop_seq (progs : list (list pop)) (o : prop_obs) : bool :=
   existsb (fun ss => pobs_eqb (ss_sh ss) o) (seq_outcomes pcode pexec pst0 progs).
-Definition chk_prop_sched (progs : list (list pop)) (sched : list nat) (o : prop_obs) : bool :=
-  let c := prun sched (pinit progs) in finished c && pobs_eqb (sh c) o.
+Definition chk_prop_sched (progs : list (list pop)) (sched : list nat) (events : list string) (o : prop_obs) : bool :=
+  let c0 := pinit progs in
+  let c := prun sched c0 in
+  finished c && events_eqb (run_events pcode pexec psite sched c0) events && pobs_eqb (sh c) o.
+Definition orc_prop (progs : list (list pop)) (o : prop_obs) : bool := pobs_consistent o && chk_prop_seq progs o.
+Definition show_prop_sched (progs : list (list pop)) (sched : list nat) :=
+  let c0 := pinit progs in
+  let c := prun sched c0 in (finished c, run_events pcode pexec psite sched c0, sh c).
 
 (** * finding classes (re-exported for the harness) *)
 Definition k_prop_torn := k_prop.
